@@ -19,12 +19,16 @@ type c18Case struct {
 	CloseAt   string `json:"closeat"`         // before-grant | at-timeout-tick | after-timeout
 	SelfQueue bool   `json:"selfq,omitempty"` // the victim also leaves a request queued behind its OWN hold on key 1 (granted by its will unlock)
 	Reconnect string `json:"reconnect"`       // no | before-late-reply | after-late-reply | before-close (the new connection announces the id while the old one is still open)
+	DudWill   string `json:"dud,omitempty"`   // a will that cannot do anything is registered FIRST: unlock-unused-db | lock-db255 | unlock-missing-key
 }
 
 func (k c18Case) name() string {
 	n := fmt.Sprintf("text=%v/init=%v/wills=%d/%s/%s/reconnect=%s", k.Text, k.Init, k.Wills, k.Cause, k.CloseAt, k.Reconnect)
 	if k.SelfQueue {
 		n += "/self-queued"
+	}
+	if k.DudWill != "" {
+		n += "/first-will-" + k.DudWill
 	}
 	return n
 }
@@ -48,6 +52,13 @@ func c18Cases(quick bool) []EnumCase {
 							if !text && init && wills == 3 && at == "before-grant" {
 								k.SelfQueue = true
 								out = append(out, mkCase(k.name(), k))
+								k.SelfQueue = false
+							}
+							if !text && wills >= 1 && at == "before-grant" && rc == "no" {
+								for _, dud := range []string{"unlock-unused-db", "lock-db255", "unlock-missing-key"} {
+									k.DudWill = dud
+									out = append(out, mkCase(k.name(), k))
+								}
 							}
 						}
 					}
@@ -123,6 +134,14 @@ func evalC18(c *Ctx, cs EnumCase) EnumResult {
 				{Type: protocol.COMMAND_WILL_LOCK, Req: 30, Key: 10, Id: 0xa, Expried: 30, Rcount: 6},
 				{Type: protocol.COMMAND_WILL_LOCK, Req: 31, Key: 10, Id: 0xb, Expried: 30},
 				{Type: protocol.COMMAND_WILL_UNLOCK, Req: 32, Key: 1, Id: 1},
+			}
+			switch k.DudWill {
+			case "unlock-unused-db":
+				_ = v.Send(wire.BinFrame(hapi.Cmd{Type: protocol.COMMAND_WILL_UNLOCK, Req: 29, DB: 9, Key: 5, Id: 5}))
+			case "lock-db255":
+				_ = v.Send(wire.BinFrame(hapi.Cmd{Type: protocol.COMMAND_WILL_LOCK, Req: 29, DB: 255, Key: 5, Id: 5, Expried: 30}))
+			case "unlock-missing-key":
+				_ = v.Send(wire.BinFrame(hapi.Cmd{Type: protocol.COMMAND_WILL_UNLOCK, Req: 29, Key: 77, Id: 5}))
 			}
 			for i := 0; i < k.Wills; i++ {
 				_ = v.Send(wire.BinFrame(wills[i]))
